@@ -37,6 +37,14 @@ func genC13(t *rapid.T) *Case {
 			}
 			c.HTML = strings.Replace(c.HTML, "<body>\n", "<body>\n"+lead, 1)
 		}
+		if rapid.IntRange(0, 2).Draw(t, "oddimgs") == 0 {
+			// an image with a very long address, and one whose src is repeated among its srcset candidates
+			long := "/cdn/" + strings.Repeat("abcdefghij", rapid.IntRange(13, 30).Draw(t, "longurl")) + "/" + g.tokp("i") + ".png?sig=" + strings.Repeat("0123456789", 6)
+			dup := "/img/" + g.tokp("i") + ".png"
+			extra := g.para() + `<img src="` + long + `" width="800" height="600">` + "\n" + g.para() +
+				`<img src="` + dup + `" srcset="` + dup + ` 1x, /img/` + g.tokp("i") + `.png 2x, /img/` + g.tokp("i") + `.png 3x" width="800" height="600">` + "\n" + g.para()
+			c.HTML = strings.Replace(c.HTML, "</body>", extra+"</body>", 1)
+		}
 		if rapid.IntRange(0, 2).Draw(t, "c18table") == 0 {
 			// a table from the feature space of C18 (roles, datatable, nesting, shapes, headers ...)
 			v := c18Decode(rapid.IntRange(0, c18Total()-1).Draw(t, "c18vec"))
